@@ -1,6 +1,7 @@
 package checks
 
 import (
+	"bytes"
 	"encoding/json"
 	"fmt"
 	"os"
@@ -135,13 +136,18 @@ func (cs c08Case) materialize(root string, k int) error {
 			fmt.Fprintf(&sb, "package %s\n\n", pkgName)
 			if len(imps) > 0 {
 				sb.WriteString("import (\n")
-				for _, im := range imps {
+				// an import path is a string literal: double-quoted or raw (back-quoted), both survive gofmt
+				for j, im := range imps {
+					q := "\""
+					if (k+j)%3 == 1 {
+						q = "`"
+					}
 					if l, ok := leafByName(im); ok {
-						fmt.Fprintf(&sb, "\t\"%s\"\n", l.path)
+						fmt.Fprintf(&sb, "\t%s%s%s\n", q, l.path, q)
 					} else {
 						for _, v := range cs.users {
 							if v.name == im {
-								fmt.Fprintf(&sb, "\t\"%s\"\n", cs.userPath(k, v))
+								fmt.Fprintf(&sb, "\t%s%s%s\n", q, cs.userPath(k, v), q)
 							}
 						}
 					}
@@ -444,6 +450,36 @@ func C08(c *ev.Ctx) {
 			}
 			pats = pats[n:]
 		}
+	}
+	// a package that changes between two translations into the same -out root: from the generic section form (with its
+	// closing footer) to an FFI prelude (shorter file, no footer) and back; the header and footer must be those of the
+	// current sources each time
+	{
+		root := mods[false]
+		pd := filepath.Join(root, "retr", "p")
+		_ = os.MkdirAll(pd, 0755)
+		verA := "package p\n\nfunc A1() uint64 {\n\treturn 1\n}\n\nfunc A2() uint64 {\n\treturn A1() + 1\n}\n\nfunc A3() uint64 {\n\treturn A2() + 1\n}\n"
+		verB := "package p\n\nimport \"github.com/goose-lang/goose/machine/disk\"\n\nfunc B1() uint64 {\n\treturn disk.BlockSize\n}\n"
+		outH, outF := filepath.Join(root, "_out_hist"), filepath.Join(root, "_out_fresh")
+		rel := strings.NewReplacer(".", "_", "-", "_").Replace(c08Mods[false]) + "/retr/p.v"
+		for step, ver := range []string{verA, verB, verA, verB} {
+			_ = os.WriteFile(filepath.Join(pd, "p.go"), []byte(ver), 0644)
+			_ = os.RemoveAll(outF)
+			m1, c1 := run(root, outH, []string{"./retr/p"})
+			_, c2 := run(root, outF, []string{"./retr/p"})
+			got, _ := os.ReadFile(filepath.Join(outH, rel))
+			want, _ := os.ReadFile(filepath.Join(outF, rel))
+			evals++
+			if c1 != 0 || c2 != 0 || want == nil {
+				c.Inconclusive("re-translation scenario: goose exit %d / %d\n%s", c1, c2, firstLines(m1, 5))
+				break
+			}
+			if !bytes.Equal(got, want) {
+				c.Violation("c08.header-after-retranslation", fmt.Sprintf("package retr/p translated %d times into the same -out root while its sources alternate between no FFI (section form with footer) and machine/disk (prelude, no footer): after step %d the file (%d bytes) is not what a fresh output directory gets (%d bytes): header / footer of an earlier version survive", step+1, step+1, len(got), len(want)), map[string]string{"got.v": string(got), "want.v": string(want)})
+				break
+			}
+		}
+		_ = os.RemoveAll(pd)
 	}
 	refusedRuns := 0
 	for k, cs := range cases {
